@@ -116,23 +116,10 @@ func stdHeader(alg string) string { return `{"alg":"` + alg + `","typ":"JWT"}` }
 
 type tokVerdict struct {
 	OK     bool           // signature verifies under a configured secret and exp/nbf hold
-	Soft   bool           // OK, but iat lies in the future: the statement leaves this open -> either
+	Soft   bool           // OK, but iat lies in the future or a valid exp/nbf is not a plain integer within +-2^53 (jwtnum.go): liveness not pinned -> either
 	Reason string         // why not OK (first failing check)
 	Claims map[string]any // decoded payload (numbers as json.Number)
 	By     string         // "s" | "prev"
-}
-
-func numClaim(m map[string]any, k string) (present bool, val float64, ok bool) {
-	v, has := m[k]
-	if !has {
-		return false, 0, true
-	}
-	n, isNum := v.(json.Number)
-	if !isNum {
-		return true, 0, false
-	}
-	f, err := n.Float64()
-	return true, f, err == nil
 }
 
 func verifyToken(tok string, cfg jwtCfg, now int64) tokVerdict {
@@ -186,16 +173,12 @@ func verifyToken(tok string, cfg jwtCfg, now int64) tokVerdict {
 	if dec.Decode(&claims) != nil {
 		return tokVerdict{Reason: "bad-payload"}
 	}
-	if p, v, ok := numClaim(claims, "exp"); p && (!ok || !(float64(now) < v)) {
-		return tokVerdict{Reason: "expired"}
+	// time claims: exact arithmetic on the literals (jwtnum.go), every occurrence of a repeated name
+	tv := judgeTimeClaims(pb, now)
+	if tv.Reason != "" {
+		return tokVerdict{Reason: tv.Reason}
 	}
-	if p, v, ok := numClaim(claims, "nbf"); p && (!ok || !(float64(now) >= v)) {
-		return tokVerdict{Reason: "not-yet-valid"}
-	}
-	soft := false
-	if p, v, ok := numClaim(claims, "iat"); p && (!ok || !(float64(now) >= v)) {
-		soft = true
-	}
+	soft := tv.Soft
 	return tokVerdict{OK: true, Soft: soft, Claims: claims, By: by}
 }
 
@@ -224,7 +207,7 @@ func jwtOracle(c jwtCase) jwtExpect {
 		case !v.OK:
 			return jwtExpect{Verdict: mustNot, Reason: v.Reason}
 		case v.Soft:
-			return jwtExpect{Verdict: either, Reason: "iat-future", Claims: v.Claims}
+			return jwtExpect{Verdict: either, Reason: "unpinned-time-claim", Claims: v.Claims}
 		}
 		return jwtExpect{Verdict: mustRun, Reason: "valid-by-" + v.By, Claims: v.Claims}
 	}
@@ -334,14 +317,16 @@ type pending struct {
 }
 
 type replayCase struct {
-	Family string      `json:"family"`
-	JWT    *jwtCase    `json:"jwt,omitempty"`
-	CS     *csCase     `json:"cs,omitempty"`
-	Crypt  *cryptCase  `json:"crypt,omitempty"`
-	Seq    *seqCase    `json:"seq,omitempty"`
-	Hist   *histCase   `json:"hist,omitempty"`
-	Script *scriptCase `json:"script,omitempty"`
-	Engine *engCase    `json:"engine,omitempty"`
+	Family    string      `json:"family"`
+	JWT       *jwtCase    `json:"jwt,omitempty"`
+	CS        *csCase     `json:"cs,omitempty"`
+	Crypt     *cryptCase  `json:"crypt,omitempty"`
+	Seq       *seqCase    `json:"seq,omitempty"`
+	Hist      *histCase   `json:"hist,omitempty"`
+	Script    *scriptCase `json:"script,omitempty"`
+	Engine    *engCase    `json:"engine,omitempty"`
+	EngineJWT *engJwtCase `json:"engine_jwt,omitempty"`
+	Codec     *codecCase  `json:"codec,omitempty"`
 }
 
 // claimUniverse: every non-standard claim name any token of the sequence / history families
